@@ -328,6 +328,15 @@ TypeOK ==
     /\ (phase # "Dead" => SeqMap(LAMBDA e : e.id, unacked) = Expected(order, covered))
     /\ \A i \in 1..Len(unacked) : unacked[i].n <= out /\ (i > 1 => unacked[i - 1].n < unacked[i].n)
 
+\* re-initialisation used by the trace specification at an execution boundary
+Reinit ==
+    /\ phase' = "NegoEnable" /\ enabled' = FALSE /\ canResume' = FALSE
+    /\ out' = 0 /\ inH' = 0 /\ unacked' = <<>>
+    /\ report' = [i \in Ids |-> "None"] /\ reportCount' = [i \in Ids |-> 0]
+    /\ conn' = 1 /\ nid' = 0 /\ outp' = <<>> /\ nzrep' = "None"
+    /\ smAct' = FALSE /\ sess' = <<>> /\ covered' = {} /\ tracked' = {} /\ order' = <<>> /\ sessRecv' = 0
+    /\ hist' = <<>>
+
 Bound == Len(hist) <= MaxHist
 View  == mvars
 =============================================================================
